@@ -125,3 +125,21 @@ Theorem C08_union_retyped_refuted :
     exists g s', gen_decode R p 40 T (mkS (flat ss) r0) = Ok (g, s') /\ rbuf s' <> [].
 Proof. exact union_retyped_refuted. Qed.
 Print Assumptions C08_union_retyped_refuted.
+
+(* ---------- the EMITTED decoders: lowered to ops (see Properties/C02.v, C02_emitted_ops_match, for the table lemma) ---------- *)
+From PVGen Require Import EmitOps EmitDen Generated.EmittedOps Proofs.EmitOpsP Proofs.EmitTableP.
+
+(* for every struct / union of the corpus, in the plain and in the keep_unknown_fields configuration, the regenerated
+   decoder -- variables and their initialisers, the loop head, the arms (field id, TType guard, assigned variable,
+   Some-wrapping, read op by type, countdown), the skip arm, the retention statements, the required checks, the late
+   defaults, the construction -- is the one the template model prescribes (codegen_decode / codegen_decode_fields /
+   codegen_enum_impl as modelled by Gen.gen_decode and GenKeep.gen_decode_keep) *)
+Theorem C08_emitted_decode_arms : forall n r ck em,
+  (ck = false /\ em = emitted_plain) \/ (ck = true /\ em = emitted_keep) ->
+  nth_error em n = Some r -> r <> ENone ->
+  (forall fs keep ia, lookup corpus_schema n = Some (DStruct fs keep ia) ->
+     exists nm e eu s su d, r = EStruct nm e eu s su d /\ norm_ds d = presc_dstruct corpus_schema ck fs keep ia) /\
+  (forall vs vo keep, lookup corpus_schema n = Some (DUnion vs vo keep) ->
+     exists nm e eu s su d, r = EUnion nm e eu s su d /\ norm_du d = presc_dunion corpus_schema ck vs vo keep).
+Proof. exact emitted_decode_arms. Qed.
+Print Assumptions C08_emitted_decode_arms.
